@@ -158,6 +158,13 @@ func (s *Server) handleConn(c *Conn) error {
 	c.greet()
 
 	for {
+		// QUIT, too many errors or a backend panic close the connection
+		// while further commands may already be buffered: they must not
+		// be executed.
+		if c.isClosed() {
+			return nil
+		}
+
 		line, err := c.readLine()
 		if err == nil {
 			cmd, arg, err := parseCmd(line)
